@@ -35,7 +35,7 @@ class probe(Event):
     pass
 
 
-def make_harness(n, length, settle_ticks=10):
+def make_harness(n, length, settle_ticks=10, warm=False, settle_choice=False):
     def harness(g):
         seen = []            # (kind, event object, receiver idx)
         comps = []
@@ -156,26 +156,9 @@ def make_harness(n, length, settle_ticks=10):
                 raise PathEnd()
 
         pid_counter = [0]
-        for step in range(length):
-            ops = []
-            for ci, c in enumerate(comps):
-                if gparent[ci] == ci and ci not in pending and c.parent is c and not c.unregister_pending:
-                    for pi in range(n):
-                        if pi != ci and not on_path(pi, ci):
-                            # p must be outside c's subtree (real check as well, in case ghost and reality differ)
-                            ops.append(('register', ci, pi))
-                if gparent[ci] != ci and ci not in pending:
-                    ops.append(('unregister', ci))
-                ops.append(('probe', ci))
-            real_roots = [i for i, c in enumerate(comps) if c.parent is c]
-            for ri in real_roots:
-                if len(comps[ri]._queue):
-                    ops.append(('tick', ri))
-            ops.append(('stop',))
-            op = g.pick('op%d' % step, ops)
+
+        def apply(op):
             history.append(op)
-            if op[0] == 'stop':
-                break
             if op[0] == 'register':
                 ci, pi = op[1], op[2]
                 for pr in probes.values():
@@ -197,11 +180,67 @@ def make_harness(n, length, settle_ticks=10):
                 comps[ci].fire(probe(pid), '*')
             elif op[0] == 'tick':
                 tick_root(op[1])
+            elif op[0] == 'settle':
+                settle()
             end_if_failed()
-            err = check_structure(step)
+            err = check_structure(len(history))
             if err:
                 g.fail('structure', {}, '%s; history=%s' % (err, history))
                 raise PathEnd()
+
+        def settle():
+            for _ in range(settle_ticks):
+                busy = [i for i, c in enumerate(comps) if c.parent is c and len(c._queue)]
+                if not busy:
+                    break
+                for ri in busy:
+                    tick_root(ri)
+                end_if_failed()
+            for pr in probes.values():
+                pr['done'] = True
+
+        if warm:
+            # start from an arbitrary forest whose roots have dispatched before (handler caches filled), instead of
+            # spending history steps on getting there
+            for ci in range(1, n):
+                pi = g.choose('init_parent%d' % ci, ci + 1)
+                if pi < ci:
+                    apply(('register', ci, pi))
+            apply(('settle',))
+            for ci in range(n):
+                apply(('probe', ci))
+            apply(('settle',))
+
+        for step in range(length):
+            ops = []
+            for ci, c in enumerate(comps):
+                if gparent[ci] == ci and ci not in pending and c.parent is c and not c.unregister_pending:
+                    for pi in range(n):
+                        if pi != ci and not on_path(pi, ci):
+                            # p must be outside c's subtree (real check as well, in case ghost and reality differ)
+                            ops.append(('register', ci, pi))
+                if gparent[ci] != ci and ci not in pending:
+                    ops.append(('unregister', ci))
+                if not warm:
+                    ops.append(('probe', ci))
+            if not warm:
+                real_roots = [i for i, c in enumerate(comps) if c.parent is c]
+                for ri in real_roots:
+                    if len(comps[ri]._queue):
+                        ops.append(('tick', ri))
+            ops.append(('stop',))
+            op = g.pick('op%d' % step, ops)
+            if op[0] == 'stop':
+                history.append(op)
+                break
+            apply(op)
+            if warm and (not settle_choice or g.flag('settle%d' % step)):
+                apply(('settle',))
+        if warm:
+            # every component probes once more: nothing may reach a component outside the firer's tree
+            apply(('settle',))
+            for ci in range(n):
+                apply(('probe', ci))
         # settle: tick every root until nothing is queued
         for _ in range(settle_ticks):
             busy = [i for i, c in enumerate(comps) if c.parent is c and len(c._queue)]
@@ -281,6 +320,7 @@ def canaries():
         ('updateRoot-not-recursive', 'history', lambda: mutate(CM.BaseComponent, '_updateRoot', 'c._updateRoot(root)', 'pass'), ['structure']),
         ('drain-dropped', 'history', lambda: mutate(M.Manager, 'registerChild', 'self.root._queue.drainFrom(component._queue)', 'pass'), ['probe-lost', 'announcement-count']),
         ('parent-not-reset', 'history', lambda: mutate(CM.BaseComponent, '_do_prepare_unregister_complete', 'self.parent = self', 'pass'), ['structure']),
+        ('reroot-cache-not-refreshed', 'warm-forest', lambda: mutate(CM.BaseComponent, '_do_prepare_unregister_complete', 'self._cache_needs_refresh = True', 'pass'), ['probe-crossed-trees']),
         ('unregistered-fired-twice', 'history', lambda: mutate(CM.BaseComponent, '_do_prepare_unregister_complete', 'self.fire(unregistered(self, self.parent))', 'self.fire(unregistered(self, self.parent)); self.fire(unregistered(self, self.parent))'), ['announcement-count']),
     ]
 
@@ -289,9 +329,16 @@ def parts(tier):
     if tier == 'quick':
         return [Part('history', make_harness(3, 5), bounds={'pool': 3, 'history_length': 5, 'ops': 'register/unregister/probe/tick(root)', 'settle_ticks': 10},
                      encoded=ENC, budget_s=90),
+                Part('warm-forest', make_harness(3, 4, warm=True),
+                     bounds={'pool': 3, 'initial_forest': 'any forest over the pool, every root has dispatched before (caches filled)',
+                             'history_length': 4, 'ops': 'register/unregister, settled after each; every component probes at the end'},
+                     encoded=ENC + [M.Manager._dispatcher, M.Manager.getHandlers], budget_s=90),
                 Part('history-deep', make_harness(2, 8), bounds={'pool': 2, 'history_length': 8, 'ops': 'register/unregister/probe/tick(root)', 'settle_ticks': 10},
                      encoded=ENC, budget_s=90)]
     return [Part('history', make_harness(4, 6), bounds={'pool': 4, 'history_length': 6}, encoded=ENC, budget_s=1800),
+            Part('warm-forest', make_harness(4, 4, warm=True, settle_choice=True),
+                 bounds={'pool': 4, 'initial_forest': 'any', 'history_length': 4, 'ops': 'register/unregister, each optionally settled'},
+                 encoded=ENC + [M.Manager._dispatcher, M.Manager.getHandlers], budget_s=1800),
             Part('history-long', make_harness(3, 7), bounds={'pool': 3, 'history_length': 7}, encoded=ENC, budget_s=1800)]
 
 
